@@ -45,6 +45,9 @@ MUTS = [
 ]
 
 
+FIRST_OCCURRENCE = ('layout-typo',)
+
+
 def run(cmd, **kw):
     return subprocess.run(cmd, shell=True, capture_output=True, text=True, **kw)
 
@@ -61,10 +64,10 @@ def main():
             run('git -C %s checkout -- .' % wt)
             full = os.path.join(wt, path)
             src = open(full).read()
-            if src.count(old) != 1:
+            if src.count(old) != 1 and name not in FIRST_OCCURRENCE:
                 print('%-28s SKIP: pattern occurs %d times' % (name, src.count(old)))
                 continue
-            open(full, 'w').write(src.replace(old, new))
+            open(full, 'w').write(src.replace(old, new, 1))
             t = run('cd %s && PYTHONPATH=%s/src MPLBACKEND=Agg TQDM_DISABLE=1 /venv/bin/python -m pytest -q -p no:cacheprovider --timeout=900 2>&1 | tail -1' % (wt, wt)).stdout.strip()
             tests = 'tests-pass' if '61 passed' in t else 'TESTS-FAIL(%s)' % t[-40:]
             out = []
